@@ -69,6 +69,22 @@ def norm_unreserved(p):
     return "".join(out)
 
 
+def pp_key(pp):
+    return (pp.get("name"), pp.get("type"), pp.get("value"))
+
+
+def shared_definitions(case):
+    """path_params definitions (name, type, value) that rules with different encoded-slash settings of this history
+    have in common"""
+    seen = {}
+    for o in case["ops"]:
+        for r in o.get("rules", []):
+            for rt in r.get("routes", []):
+                for pp in rt.get("pp", []):
+                    seen.setdefault(pp_key(pp), set()).add(r.get("esh") or "off")
+    return {k for k, v in seen.items() if len(v) > 1}
+
+
 def rules_by_version(case):
     res = {}
     for o in case["ops"]:
@@ -87,7 +103,22 @@ def spelling_view(res):
     for r in (v, v.get("envoy") if isinstance(v.get("envoy"), dict) else {}):
         if isinstance(r.get("up"), dict):
             r["up"]["path"] = norm_unreserved(str(r["up"]["path"]))
+        if isinstance(r.get("sent"), str) and not r["sent"].startswith("hex:"):
+            path, q, query = r["sent"].partition("?")
+            r["sent"] = norm_unreserved(path) + q + query
     return v
+
+
+def sent_path(res):
+    """path part of the request target the proxy wrote to the upstream connection (None: nothing written / not ASCII);
+    an empty path is written as `/`"""
+    sent = res.get("sent")
+    if not isinstance(sent, str) or sent.startswith("hex:"):
+        return None
+    path = sent.partition("?")[0]
+    if path == "/" and isinstance(res.get("up"), dict) and res["up"].get("path") == "":
+        return ""
+    return path
 
 
 def cut_status(op, rule):
@@ -100,15 +131,20 @@ def drop_up_path(v):
     for r in (v, v.get("envoy") if isinstance(v.get("envoy"), dict) else {}):
         if isinstance(r.get("up"), dict):
             r["up"].pop("path", None)
+        if isinstance(r.get("sent"), str):
+            r["sent"] = "?" + r["sent"].partition("?")[2]
     return v
 
 
 def without_envoy(res):
-    return {k: x for k, x in res.items() if k != "envoy"}
+    """the answer through the request context of the HTTP based services alone (what only the proxy service adds - the
+    request target written to the upstream connection - is not part of the comparison of the two contexts)"""
+    return {k: x for k, x in res.items() if k not in ("envoy", "sent")}
 
 
-def slash_clause(op, res, rule):
-    """encoded slashes of the request in the path sent upstream; None = fine, otherwise what is wrong"""
+def slash_clause(op, res, rule, path=None):
+    """encoded slashes of the request in the path sent upstream; None = fine, otherwise what is wrong.
+    path: the path to judge instead of the one of the URL the rule returned (the one the proxy wrote to the upstream)"""
     if not isinstance(res, dict) or rule is None:
         return None
     raw = op["target"].partition("?")[0]
@@ -125,7 +161,7 @@ def slash_clause(op, res, rule):
     add, strip = rw.get("add", ""), rw.get("strip", "")
     if add not in PLAIN_ADD or "%" in strip or raw.isascii() is False or any(ord(c) < 33 for c in raw):
         return None
-    path = str(up["path"])
+    path = str(up["path"]) if path is None else path
     if not path.startswith(add):
         return f"the path sent upstream does not start with add_path_prefix {add!r}"
     sent = path[len(add):]
@@ -143,7 +179,102 @@ def slash_clause(op, res, rule):
     return None
 
 
+# path_params definitions whose verdict on a captured value with an encoded slash depends on how the value is decoded
+# (`on`: `a/b`, `no_decode`: `a%2Fb`; the glob separator is `/`), next to ones that do not care
+SHARED_PP = [("glob", "a*"), ("glob", "a**"), ("glob", "*b"), ("glob", "**"), ("glob", "*"), ("glob", "a?b"),
+             ("glob", "a*b"), ("exact", "a/b"), ("exact", "a%2Fb"), ("exact", "a%2fb"), ("exact", "ab"),
+             ("regex", "^a"), ("regex", "b$"), ("regex", "^a.b$"), ("regex", "^a...b$"), ("regex", "a/b")]
+SHARED_VALUES = ["a%2Fb", "a%2fb", "a%2Fb", "ab", "a", "a%2Fb%2fc", "%2F", "a%252Fb", "a%2F", "axb", "a%20b", "b"]
+ESH = ["", "off", "on", "no_decode"]
+
+
+def shared_pp_case(rng):
+    """Several rules - of one rule set or of several, loaded one after the other into ONE rule factory - carry the very
+    same path_params definition (name, type, value) under DIFFERENT encoded-slash settings, and rule sets are
+    re-loaded with nothing but the setting of one rule changed (the documented hot reload).  What a route answers to a
+    request with an encoded slash in the captured segment has to follow the setting of ITS rule as currently loaded,
+    whatever was compiled in the process before."""
+    name = rng.choice(["x", "id", "name"])
+    ptype, pvalue = rng.choice(SHARED_PP)
+    lits = rng.sample(["f", "g", "h", "files", "k"], rng.choice([2, 2, 3, 4]))
+    settings = [rng.choice(ESH) for _ in lits]
+    if len({x or "off" for x in settings}) == 1:       # at least two effective settings
+        settings[-1] = rng.choice([x for x in ("off", "on", "no_decode") if x != (settings[0] or "off")])
+
+    def mk(i, lit, esh):
+        gen_repo.VERSION[0] += 1
+        tail = rng.choice(["", "", "", "/*rest", "/z"])
+        pp = [{"name": name, "type": ptype, "value": pvalue}]
+        if rng.random() < 0.15:   # a definition of its own now and then: same name, other expression
+            t2, v2 = rng.choice(SHARED_PP)
+            pp = [{"name": name, "type": t2, "value": v2}]
+        routes = [{"path": f"/{lit}/:{name}{tail}", "pp": pp}]
+        if rng.random() < 0.25:   # a second route of the same rule with the same definition, and one without any
+            routes.append({"path": f"/{lit}2/:{name}", "pp": rng.choice([pp, []])})
+        rule = {"id": "r%d" % i, "bt": rng.choice([True, False, None]), "esh": esh, "scheme": "", "methods": [],
+                "hosts": [], "routes": routes, "ver": gen_repo.VERSION[0]}
+        if rng.random() < 0.5:
+            rule["forward_to"] = gen_repo.gen_forward_to(rng, routes)
+        return rule
+
+    def flip(rule):
+        """the same rule, only `allow_encoded_slashes` differs"""
+        gen_repo.VERSION[0] += 1
+        r2 = copy.deepcopy(rule)
+        r2["esh"] = rng.choice([x for x in ESH if (x or "off") != (rule["esh"] or "off")])
+        r2["ver"] = gen_repo.VERSION[0]
+        return r2
+
+    rules = [mk(i, lit, esh) for i, (lit, esh) in enumerate(zip(lits, settings))]
+    rng.shuffle(rules)
+    nsrc = rng.choice([1, 2, 2, 3])
+    live = {}
+    for k, r in enumerate(rules):
+        live.setdefault("s%d" % (1 + k % nsrc), []).append(r)
+    ops, groups = [], []
+
+    def lookups():
+        for r in [x for rs in live.values() for x in rs]:
+            for rt in r["routes"]:
+                for v in rng.sample(SHARED_VALUES, rng.choice([1, 2, 2, 3])):
+                    t = rt["path"].replace(":" + name, v).replace("*rest", rng.choice(["q", "q/r", "a%2Fb"]))
+                    if rng.random() < 0.15:
+                        t += "?" + rng.choice(["a=b", "x=%2F", "q"])
+                    f = {"op": "find", "method": rng.choice(gen_repo.METHODS), "host": rng.choice(gen_repo.HOSTS),
+                         "target": t}
+                    vs = [f] + variants(rng, f, rng.choice([1, 2]))
+                    groups.append((len(ops), len(vs)))
+                    ops.extend(vs)
+
+    for src in sorted(live):
+        ops.append({"op": "add", "src": src, "rules": list(live[src])})
+        if rng.random() < 0.3:
+            lookups()
+    lookups()
+    for _ in range(rng.choice([0, 1, 1, 2])):
+        src = rng.choice(sorted(live))
+        x = rng.random()
+        if x < 0.65 or len(live) == 1:
+            # hot reload: one rule of the rule set comes back with another setting, the others as they were
+            k = rng.randrange(len(live[src]))
+            live[src] = [flip(r) if j == k else r for j, r in enumerate(live[src])]
+            ops.append({"op": "upd", "src": src, "rules": list(live[src])})
+        else:
+            # the rule set is removed and loaded again later, every rule with another setting
+            ops.append({"op": "del", "src": src})
+            rs = live.pop(src)
+            if rng.random() < 0.5:
+                lookups()
+            live[src] = [flip(r) for r in rs]
+            ops.append({"op": "add", "src": src, "rules": list(live[src])})
+        lookups()
+    return {"fam": "repo", "envoy": True, "proxy": True, "dr": rng.random() < 0.5, "dr_bt": rng.random() < 0.5,
+            "ops": ops}, groups
+
+
 def gen_case(rng):
+    if rng.random() < 0.12:
+        return shared_pp_case(rng)
     base = gen_repo.gen_repo_case(rng, max_ops=6, fwd=0.6)
     ops = [o for o in base["ops"] if o["op"] != "find"]
     if not ops:
@@ -161,7 +292,8 @@ def gen_case(rng):
             vs2 = [s] + variants(rng, s, 2)
             groups.append((len(ops), len(vs2)))
             ops += vs2
-    return dict(base, ops=ops), groups
+    # proxy: every forwarded lookup also through the request context of the proxy service (what is written upstream)
+    return dict(base, ops=ops, proxy=True), groups
 
 
 def run(R):
@@ -171,7 +303,8 @@ def run(R):
     if exe is None:
         R.violation("harness does not build against /repo", {"build_log": R.harness_log[-3000:]}, no_input=True)
         return
-    corpus = [dict(c, envoy=True) for c in vlib.load_corpus(PID)]   # every corpus case through both request contexts
+    # every corpus case through both request contexts and the proxy's Finalize
+    corpus = [dict(c, envoy=True, proxy=True) for c in vlib.load_corpus(PID)]
     n = 1200 if R.tier == "quick" else 90000
     gen = [gen_case(R.rng) for _ in range(n)]
     cases = corpus + [g[0] for g in gen]
@@ -185,8 +318,9 @@ def run(R):
     slash_seen = {"off_rejected": 0, "no_decode_kept": 0, "on_decoded": 0}
     up_seen = {"forwarded_lookups": 0, "forwarded_groups_with_respelling": 0, "no_decode_slash_sent_encoded": 0,
                "on_slash_sent_decoded": 0, "literal_prefix_cut_depends_on_spelling": 0, "envoy_lookups": 0,
-               "rewrite_shapes": {}}
+               "written_by_proxy": 0, "rewrite_shapes": {}}
 
+    shared_seen = {"lookups_with_encoded_slash": 0, "answered_off": 0, "answered_on": 0, "answered_no_decode": 0}
     said = set()
 
     def report(what, c, keep_ops, kind):
@@ -203,11 +337,16 @@ def run(R):
         if not isinstance(i, list):
             continue
         byver = rules_by_version(c)
+        shared = shared_definitions(c)
         # every lookup on its own: the two request contexts, the encoded-slash clause for the path sent upstream
         for op, r in zip(c["ops"], i):
             if op["op"] != "find" or not isinstance(r, dict):
                 continue
             rule = byver.get(str(r.get("ver"))) if r.get("ver") else None
+            if rule is not None and "%2f" in op["target"].partition("?")[0].lower() and any(
+                    pp_key(pp) in shared for rt in rule["routes"] for pp in rt.get("pp", [])):
+                shared_seen["lookups_with_encoded_slash"] += 1
+                shared_seen["answered_" + (rule.get("esh") or "off")] += 1
             if isinstance(r.get("envoy"), dict):
                 up_seen["envoy_lookups"] += 1
                 if not r.get("badrequest") and vlib.canon(r["envoy"]) != vlib.canon(without_envoy(r)):
@@ -219,6 +358,23 @@ def run(R):
                 up_seen["forwarded_lookups"] += 1
                 shape = "+".join(sorted(((rule or {}).get("forward_to") or {}).get("rewrite", {}).keys())) or "none"
                 up_seen["rewrite_shapes"][shape] = up_seen["rewrite_shapes"].get(shape, 0) + 1
+            # what the proxy service wrote to the upstream connection: the URL the rule returned, and the encoded
+            # slashes of the request in it as the setting of the rule says
+            if c.get("proxy") and isinstance(r.get("up"), dict) and \
+                    (r["up"].get("scheme") in ("http", "https") or "sent" in r) and \
+                    not any(str(x).startswith("hex:") for x in (r["up"]["path"], r["up"]["query"], r.get("sent"))):
+                want = (r["up"]["path"] or "/") + ("?" + r["up"]["query"] if r["up"]["query"] else "")
+                if r.get("sent") != want:
+                    report(f"the request target the proxy service wrote to the upstream ({r.get('sent')!r}) is not the "
+                           f"one of the URL the rule computed ({want!r}; scheme {r['up'].get('scheme')}) for the request "
+                           f"{op['target']}, rule {r.get('rule')}", c, [op], "impl-proxy-request-line-vs-rule-url")
+            sp = sent_path(r)
+            if sp is not None:
+                up_seen["written_by_proxy"] += 1
+                bad = slash_clause(op, r, rule, path=sp)
+                if bad:
+                    report(f"{bad} — in the request line the proxy service wrote to the upstream: {r['sent']!r} "
+                           f"(request {op['target']}, rule {r.get('rule')})", c, [op], "impl-proxy-sent-encoded-slash")
             for rr in (r, r.get("envoy")):
                 if not isinstance(rr, dict) or rr.get("badrequest") or rr.get("ver") != r.get("ver"):
                     continue
@@ -276,9 +432,16 @@ def run(R):
                 "ext_authz) + repository + rule; 60 % of the rules have a backend (forward_to: no rewrite / scheme / "
                 "strip_path_prefix / add_path_prefix / both / query parameters), for which the URL of "
                 "Backend.CreateURL / URLRewriter.Rewrite is observed; compared with the Lean model, spelling against "
-                "spelling, context against context, and with the encoded-slash clause for the path sent upstream. Non-trivial = group whose reference is answered by "
+                "spelling, context against context, and with the encoded-slash clause for the path sent upstream. Every "
+                "forwarded lookup is made a third time through the request context of the PROXY service, whose "
+                "Finalize (httputil.ReverseProxy + rewriteRequest) writes the request to a recording upstream "
+                "connection: the request target found there is compared with the model, with the URL the rule "
+                "returned, and with the encoded-slash clause. 12 % of the histories load several rules with the very "
+                "same path_params definition under different encoded-slash settings into one rule factory and re-load "
+                "rule sets with only the setting of a rule changed. Non-trivial = group whose reference is answered by "
                 "a regular rule and that contains a percent-encoded spelling; distinct by (rule sets, target)",
         "spelling_groups": ngroups, "encoded_slash_outcomes": slash_seen, "upstream_url": up_seen,
+        "path_params_definition_shared_across_settings": shared_seen,
         "lookups_forwarded_model": st.get("forwarded", 0),
         "lookups_matched": st.get("matched", 0), "lookups_default_rule": st.get("default", 0),
         "corpus_cases": len(corpus), "samples": [cases[len(corpus)]] if len(cases) > len(corpus) else [cases[0]],
@@ -288,6 +451,11 @@ def run(R):
         "trusted; generated targets stay inside the characters net/url keeps verbatim in EscapedPath",
         "of the URL sent upstream only the path (and that scheme, host and raw query do not depend on the spelling) "
         "belongs to C08; the forwarding of headers, body and method is C15's",
+        "the request line the proxy writes is observed on an in-memory connection handed out by a net/http Transport "
+        "that replaces the one of the proxy's request context (white-box); net/http's Transport and "
+        "httputil.ReverseProxy are used as they are (modelled: the request line carries URL.RequestURI() of the "
+        "outgoing URL, schemes http / https only); the rule factory of the harness runs in decision mode (proxy mode "
+        "additionally refuses rules without forward_to at load time, nothing else differs)",
         "the CheckRequest handed to grpcv3.NewRequestContext carries the request target as received in `path` (the "
         "documented contract of Envoy's ext_authz filter); what Envoy itself does to a path before is not modelled",
     ]
